@@ -102,4 +102,83 @@ def poolFinal : Option Nat → Nat → List Conf → Option Nat
   | cached, _, [] => cached
   | cached, i, c :: cs => poolFinal (poolStep cached i c) (i + 1) cs
 
+/-! ### vote collection of the proposal dispatcher (dpos/manager/proposaldispatcher.go ProcessVote
+on the accept-vote path: `VoteCheck`, `alreadyExistVote`, `countAcceptedVote`)
+
+The collected votes are keyed by the vote hash = (proposal hash, signer, accept); `hashOk` tells
+whether the vote names the proposal being processed (the message handlers only forward such votes). -/
+
+def dispStep (arbs : List Arb) (acc : List (Nat × Bool)) (v : Vote) : List (Nat × Bool) × Bool :=
+  if v.sigOk && isNormalArb arbs v.signer && v.accept && !(acc.contains (v.signer, v.hashOk))
+  then ((v.signer, v.hashOk) :: acc, true) else (acc, false)
+
+/-- per vote: (succeed, majority reached, number of accept votes held). -/
+def dispRun (arbs : List Arb) : List (Nat × Bool) → List Vote → List (Bool × Bool × Nat)
+  | _, [] => []
+  | acc, v :: vs =>
+    let r := dispStep arbs acc v
+    (r.2, hasMajority arbs.length r.1.length, r.1.length) :: dispRun arbs r.1 vs
+
+def dispFinal (arbs : List Arb) : List (Nat × Bool) → List Vote → List (Nat × Bool)
+  | acc, [] => acc
+  | acc, v :: vs => dispFinal arbs (dispStep arbs acc v).1 vs
+
+/-! ### block pool + chain for one block `B` (mempool/blockpool.go AddDposBlock / AppendDposBlock /
+AppendConfirm / confirmBlock, blockchain.connectBlock → checkBlockWithConfirmation)
+
+`B` is a valid block extending the tip.  In the DPoS era the pool hands `B` to
+`BlockChain.ProcessBlock` only together with the confirmation it holds for `B`'s hash, and the chain
+connects it only if `ConfirmContextCheck` passes.  Before the DPoS era (`dpos = false`)
+`AddDposBlock` passes the block straight to the chain, which ignores confirmations. -/
+
+structure PCState where
+  inPool : Bool
+  cached : Option (Nat × Conf)
+  connected : Bool
+  deriving DecidableEq, Repr
+
+inductive CStep
+  | blk                  -- AddDposBlock(B) without confirmation
+  | blkConf (c : Conf)   -- AddDposBlock(B) with confirmation
+  | conf (c : Conf)      -- AppendConfirm
+  deriving DecidableEq, Repr
+
+def CStep.conf? : CStep → Option Conf
+  | .blk => none
+  | .blkConf c => some c
+  | .conf c => some c
+
+/-- `confirmBlock`: needs the block and a confirmation in the pool; the chain checks the context. -/
+def tryConnect (arbs : List Arb) (st : PCState) : PCState :=
+  if st.inPool && !st.connected then
+    match st.cached with
+    | some (_, c) => if context arbs c = none then { st with connected := true } else st
+    | none => st
+  else st
+
+/-- `appendConfirm`. -/
+def appendConf (arbs : List Arb) (st : PCState) (i : Nat) (c : Conf) : PCState :=
+  if sanity c = none then tryConnect arbs { st with cached := some (i, c) } else st
+
+def chainStep (dpos : Bool) (arbs : List Arb) (st : PCState) (i : Nat) : CStep → PCState
+  | .blk =>
+    if dpos then (if st.inPool then st else tryConnect arbs { st with inPool := true })
+    else { st with connected := true }
+  | .blkConf c =>
+    if dpos then appendConf arbs { st with inPool := true } i c
+    else { st with connected := true }
+  | .conf c =>
+    if dpos then appendConf arbs st i c
+    else (if sanity c = none then { st with cached := some (i, c) } else st)
+
+def chainRun (dpos : Bool) (arbs : List Arb) : PCState → Nat → List CStep → List PCState
+  | _, _, [] => []
+  | st, i, x :: xs =>
+    let st' := chainStep dpos arbs st i x
+    st' :: chainRun dpos arbs st' (i + 1) xs
+
+def chainFinal (dpos : Bool) (arbs : List Arb) : PCState → Nat → List CStep → PCState
+  | st, _, [] => st
+  | st, i, x :: xs => chainFinal dpos arbs (chainStep dpos arbs st i x) (i + 1) xs
+
 end ElaVerif.Confirm
